@@ -9,7 +9,7 @@ from sa.db import AnalysisError, FuncInfo, ancestors, dotted, src, walk_local
 from sa.model import contains, enclosing
 from sa.variants import Variant, replace_once, sub_first, sub_once
 
-from .common import call_names
+from .common import call_names, enclosing_facts, vars_from_call
 
 ID = "C20"
 EXPLANATION = (
@@ -78,6 +78,7 @@ def run(ctx) -> None:
     rep.rule("C20.R5", "scope discipline: no selection of inner nodes by parent-scope value names", floor=2)
     rep.rule("C20.R6", "edge-emitting loops check endpoint visibility before emitting", floor=6)
     rep.rule("C20.R7", "deepest-producer re-routing uses the nearest visible representative", floor=3)
+    rep.rule("C20.R8", "containment is decided by the parent relation: ids are opaque to every function that receives the flat graph", floor=20)
 
     edge_funcs = [f for f in db.all_funcs() if f.module.name in EDGE_MODS]
 
@@ -309,6 +310,77 @@ def run(ctx) -> None:
     ok = nv is not None and any(isinstance(n, ast.While) for n in walk_local(nv.node)) and "is_node_visible" in src(nv.node) and "parent" in src(nv.node)
     rep.add("C20.R7", "nearest_visible:climbs-parents", ok, nv.loc() if nv else "src/hypergraph/viz/_common.py:1", "nearest_visible climbs the parent chain until a visible node is found" if ok else "nearest_visible does not climb the parent chain")
 
+    # ---- R8 -------------------------------------------------------------------------
+    STR_SURGERY = {"startswith", "endswith", "split", "rsplit", "partition", "rpartition", "find", "rfind", "index", "removeprefix", "removesuffix"}
+    n8 = 0
+    for f in db.all_funcs():
+        if not f.module.name.startswith("hypergraph.viz") or f.module.name.endswith((".debug", ".widget")) or ".html" in f.module.name:
+            continue
+        g = f
+        takes_graph = False
+        while g is not None:
+            takes_graph = takes_graph or any(p in ("flat_graph", "G") for p in g.param_names)
+            g = g.parent
+        if not takes_graph:
+            continue
+        n8 += 1
+        bad = []
+        for c in walk_local(f.node):
+            if isinstance(c, ast.Call) and isinstance(c.func, ast.Attribute) and c.func.attr in STR_SURGERY:
+                t = db.type_of(c.func.value, f)
+                if t is not None and t.classes():
+                    continue  # a package object's own method
+                if isinstance(c.func.value, ast.Constant) or (c.func.attr == "index" and not isinstance(c.func.value, ast.Name)):
+                    continue
+                if c.func.attr == "index":
+                    continue  # list.index
+                if c.func.attr == "startswith" and len(c.args) == 1 and _sep_terminated(c.args[0]):
+                    continue  # '<ancestor>/' is a proper hierarchical prefix (names are identifiers, ids are parent/name)
+                bad.append(c)
+        ok = not bad
+        rep.add("C20.R8", f"{f.qname}:ids-opaque", ok, f"{f.module.rel}:{(bad[0].lineno if bad else f.node.lineno)}", "no prefix / split test on identifiers" if ok else f"'{src(bad[0])[:70]}': an identifier is taken apart or compared by prefix; hierarchical ids of unrelated nodes can share a prefix ('load' / 'load_meta'), so containment must come from the parent links")
+    ido = db.func("viz._common.is_descendant_of")
+    icfg = ctx.cfg(ido)
+    anc = (ido.param_names + ["", ""])[1]
+    pvars = set(vars_from_call(db, ido, {"get_parent"}))
+    okr = True
+    prefix_form = False
+    whyr = "True is returned only after a parent-chain element compared equal to the ancestor"
+    rets = [n for n in icfg.nodes if n.kind == "stmt" and isinstance(n.ast, ast.Return)]
+    for r in rets:
+        v = r.ast.value
+        if isinstance(v, ast.Constant) and v.value is False:
+            continue
+        if isinstance(v, ast.Constant) and v.value is True:
+            facts = enclosing_facts(r.ast)
+            if any(pol and isinstance(a, ast.Compare) and len(a.ops) == 1 and isinstance(a.ops[0], ast.Eq) and {src(a.left), src(a.comparators[0])} & pvars and anc in {src(a.left), src(a.comparators[0])} for a, pol in facts):
+                continue
+            okr, whyr = False, "True is returned without an equality test between a parent and the ancestor"
+        else:
+            calls = [x for x in ast.walk(v)] if v is not None else []
+            sw = [x for x in calls if isinstance(x, ast.Call)]
+            if sw and all(isinstance(x.func, ast.Attribute) and x.func.attr == "startswith" and len(x.args) == 1 and _sep_terminated(x.args[0]) and anc in src(x.args[0]) for x in sw):
+                prefix_form = True
+                continue
+            okr, whyr = False, f"returns '{src(v) if v is not None else None}': descent is not decided by walking the parent links"
+    loops = [n for n in walk_local(ido.node) if isinstance(n, ast.While)]
+    if okr and prefix_form and not any(isinstance(r.ast.value, ast.Constant) and r.ast.value.value is True for r in rets):
+        whyr = "descent is decided by the separator-terminated hierarchical prefix '<ancestor>/'"
+    elif okr and not (loops and pvars and any(isinstance(x, ast.Assign) and isinstance(x.value, ast.Name) and x.value.id in pvars for lp in loops for x in ast.walk(lp))):
+        okr, whyr = False, "the parent chain is not climbed (no loop advancing to the parent)"
+    rep.add("C20.R8", f"{ido.qname}:parent-chain", okr, ido.loc(), whyr)
+    if n8 < 20:
+        raise AnalysisError(f"only {n8} flat-graph functions found")
+
+
+def _sep_terminated(a: ast.AST) -> bool:
+    """``x + "/"`` or ``f"{x}/"``: a prefix that ends with the hierarchy separator."""
+    if isinstance(a, ast.BinOp) and isinstance(a.op, ast.Add) and isinstance(a.right, ast.Constant) and a.right.value == "/":
+        return True
+    if isinstance(a, ast.JoinedStr) and a.values and isinstance(a.values[-1], ast.Constant) and str(a.values[-1].value).endswith("/"):
+        return True
+    return False
+
 
 def _li(f: FuncInfo, lp: ast.For) -> int:
     ls = [n for n in walk_local(f.node) if isinstance(n, ast.For)]
@@ -320,6 +392,9 @@ MM = "src/hypergraph/viz/mermaid.py"
 PC = "src/hypergraph/viz/renderer/precompute.py"
 CORE = "src/hypergraph/graph/core.py"
 VARIANTS = [
+    Variant("descendant-by-prefix", "src/hypergraph/viz/_common.py", replace_once("    current = node_id\n    while current is not None:\n        parent = get_parent(current, flat_graph)\n        if parent == ancestor_id:\n            return True\n        current = parent\n    return False", "    return node_id != ancestor_id and node_id.startswith(ancestor_id)"), {"C20.R8"}),
+    Variant("twin-descendant-by-separator-prefix", "src/hypergraph/viz/_common.py", replace_once("    current = node_id\n    while current is not None:\n        parent = get_parent(current, flat_graph)\n        if parent == ancestor_id:\n            return True\n        current = parent\n    return False", "    return node_id.startswith(ancestor_id + \"/\")"), set()),
+    Variant("descendant-one-level-only", "src/hypergraph/viz/_common.py", replace_once("    current = node_id\n    while current is not None:\n        parent = get_parent(current, flat_graph)\n        if parent == ancestor_id:\n            return True\n        current = parent\n    return False", "    parent = get_parent(node_id, flat_graph)\n    if parent == ancestor_id:\n        return True\n    return False"), {"C20.R8"}),
     Variant("merged-first-consumer-only", ED, replace_once("                    actual_targets = internal_consumers\n", "                    actual_targets = [internal_consumers[0]]\n"), {"C20.R1"}),
     Variant("mermaid-first-consumer-only", MM, replace_once("            actual_targets = internal\n", "            actual_targets = [internal[0]]\n"), {"C20.R1"}),
     Variant("data-edge-id-template-drift", ED, replace_once("                    data_node_id = f\"data_{source}_{value_name}\"", "                    data_node_id = f\"data-{source}-{value_name}\""), {"C20.R2"}),
